@@ -1,9 +1,9 @@
 SPECIFICATION Spec
 CONSTANT MaxLen1 = 2
-CONSTANT MaxLen2 = 2
+CONSTANT MaxLen2 = 1
 CONSTANT MaxIsoNodes = 6
-CONSTANT PoolN = 12
-CONSTANT ClosedOnly = FALSE
+CONSTANT PoolN = 26
+CONSTANT ClosedOnly = TRUE
 CHECK_DEADLOCK FALSE
 INVARIANT StrictLazyAgree
 INVARIANT OrderIndependent
